@@ -160,8 +160,12 @@ class Program(object):
         self.by_name[name] = m
     if os.environ.get('SA_NO_NORMALIZE') != '1':
       try:
-        from .normalize import normalize_attrs
-        normalize_attrs(dict((rel, m.tree) for rel, m in self.modules.items()))
+        from .normalize import normalize_attrs, rename_pass
+        st_ = {}
+        normalize_attrs(dict((rel, m.tree) for rel, m in self.modules.items()), st_)
+        if st_.get('attrs_renamed'):
+          for rel, m in self.modules.items():
+            rename_pass(m.tree, rel)
       except Exception:
         pass
     for m in self.modules.values():
